@@ -117,10 +117,20 @@ static bool checkReuse(int b, int e, const std::vector<int> &w, const std::vecto
     used += w[j];
     a.push(w[j], t[j]);
   }
-  int nq = (int)rng.range(0, 3);
-  for (int q = 0; q < nq; ++q) { int j = rng.chance(0.6) ? 0 : (int)rng.range(0, n - 1); if (used + w[j] <= e - b) (void)a.getCost(w[j], t[j]); }
+  int nq = (int)rng.range(0, 3), pushed1 = (int)a.getPlacement().size();
+  for (int q = 0; q < nq; ++q) {
+    // bare queries; the last one often asks for the very cell that the next life will insert when the row holds as many cells again
+    int j = (q + 1 == nq && pushed1 < n && rng.chance(0.7)) ? pushed1 : (rng.chance(0.6) ? 0 : (int)rng.range(0, n - 1));
+    if (used + w[j] <= e - b) (void)a.getCost(w[j], t[j]);
+  }
   a.clear();
+  bool sparseQueries = rng.chance(0.5);  // in the next life only some insertions are preceded by a prediction
   for (int i = 0; i < n; ++i) {
+    if (sparseQueries && i != pushed1 && rng.chance(0.7)) {
+      long long pa0 = a.push(w[i], t[i]), pf0 = f.push(w[i], t[i]);
+      if (pa0 != pf0) { r.fail("C12:reused-legalizer-differs-from-a-new-one", "push after clear() = " + std::to_string(pa0) + ", on a new legalizer " + std::to_string(pf0) + " at cell " + std::to_string(i) + ": " + seqStr(b, e, w, t)); return false; }
+      continue;
+    }
     long long ca = a.getCost(w[i], t[i]), cf = f.getCost(w[i], t[i]);
     if (ca != cf) { r.fail("C12:reused-legalizer-differs-from-a-new-one", "getCost after clear() = " + std::to_string(ca) + ", on a new legalizer " + std::to_string(cf) + " at cell " + std::to_string(i) + " (earlier life: " + std::to_string(k) + " pushes, " + std::to_string(nq) + " bare queries): " + seqStr(b, e, w, t)); return false; }
     long long pa = a.push(w[i], t[i]), pf = f.push(w[i], t[i]);
